@@ -319,11 +319,16 @@ class Ctx:
         raise Inconclusive("no such spec file " + name)
 
     # ---------------------------------------------------------------- Go
-    def go_build(self, cmd_pkg, out=None, tags="verif"):
+    def go_build(self, cmd_pkg, out=None, tags="verif", clock=False):
         """Build a driver from /verif/harness against /repo's working tree (replace directive),
-        with overlay-injected accessor files."""
+        with overlay-injected accessor files.  clock=True: with a shiftable time.Now() (tag verifclock); returns None if
+        this Go's time.go cannot be patched (the caller then builds without and leaves the clock scenarios out)."""
         out = out or os.path.join(self.scratch, os.path.basename(cmd_pkg))
-        ov = write_overlay(self.scratch)
+        ov = write_overlay(self.scratch, clock=clock)
+        if ov is None:
+            return None
+        if clock:
+            tags = tags + ",verifclock"
         cmd = ["go", "build", "-tags", tags, "-overlay", ov, "-o", out, cmd_pkg]
         t = time.time()
         p = subprocess.run(cmd, cwd=HARNESS, env=goenv(), stdout=subprocess.PIPE, stderr=subprocess.STDOUT, text=True)
@@ -541,10 +546,44 @@ def load_known():
     return out
 
 
-def write_overlay(scratch):
+def patched_time_go(scratch):
+    """A copy of $GOROOT/src/time/time.go whose Now() adds a shift that a driver sets with time.VerifShiftClock(sec)
+    (forward only).  A shifted reading carries no monotonic part, so every comparison uses the shifted wall clock.
+    Returns (goroot_path, patched_path) or None when this Go's time.go does not have the expected shape."""
+    try:
+        goroot = subprocess.run(["go", "env", "GOROOT"], env=goenv(), stdout=subprocess.PIPE, text=True).stdout.strip()
+        src = os.path.join(goroot, "src", "time", "time.go")
+        lines = open(src).read().split("\n")
+    except Exception:
+        return None
+    out, infn, done = [], False, False
+    for ln in lines:
+        out.append(ln)
+        if ln == "func Now() Time {":
+            infn = True
+        elif infn and "sec, nsec, mono := now()" in ln:
+            out += ["\tif verifShiftSec != 0 {", "\t\treturn unixTime(sec+verifShiftSec, int32(nsec))", "\t}"]
+            infn, done = False, True
+    if not done:
+        return None
+    out += ["", "// (a plain variable: drivers shift the clock only while no connection is in flight)", "var verifShiftSec int64", "",
+            "// VerifShiftClock moves the clock reported by Now() forward by sec seconds.",
+            "func VerifShiftClock(sec int64) { verifShiftSec += sec }", ""]
+    dst = os.path.join(scratch, "time_patched.go")
+    with open(dst, "w") as fh:
+        fh.write("\n".join(out))
+    return src, dst
+
+
+def write_overlay(scratch, clock=False):
     """overlay.json: every file under /verif/overlay/<pkgpath>/<name>.go appears in
     /repo/<pkgpath>/zz_verif_<name>.go (nothing is written into /repo)."""
     rep = {}
+    if clock:
+        pt = patched_time_go(scratch)
+        if pt is None:
+            return None
+        rep[pt[0]] = pt[1]
     root = os.path.join(VERIF, "overlay")
     for d, _dirs, files in os.walk(root):
         for f in files:
